@@ -61,6 +61,11 @@ func (sp *Proof) Verify(rootHash []byte, leaf []byte) error {
 		return fmt.Errorf("invalid leaf hash: wanted %X got %X", leafHash, sp.LeafHash)
 	}
 	computedHash := sp.ComputeRootHash()
+	if computedHash == nil {
+		// index, total and the number of aunts do not describe a path: bytes.Equal would take
+		// the nil result for an empty rootHash
+		return errors.New("proof does not compute a root hash")
+	}
 	if !bytes.Equal(computedHash, rootHash) {
 		return fmt.Errorf("invalid root hash: wanted %X got %X", rootHash, computedHash)
 	}
